@@ -71,6 +71,11 @@ func c08Gen(r *Rand, tier string, i int) Scenario {
 	for u := 0; u < nu; u++ {
 		if r.Bool(0.8) {
 			sc.Users[c08Users[u]] = genRules()
+			if r.Bool(0.12) {
+				// a user listed with an EMPTY rule list: nothing is allowed (this is
+				// not the same as a user who is not listed and gets the default rules)
+				sc.Users[c08Users[u]] = []string{}
+			}
 		}
 	}
 	// tree
@@ -366,6 +371,9 @@ func c08Run(t *testing.T, s Scenario, src verifsim.DecisionSource, keep bool) *R
 		o := outs[ri]
 		if o == nil {
 			continue
+		}
+		if rs, listed := sc.Users[rq.User]; listed && len(rs) == 0 && o.err != "" {
+			continue // a user without any rule may be turned away at the door
 		}
 		if o.err != "" {
 			res.Class, res.Message = "session-failed", fmt.Sprintf("request %d (%s %s): %s", ri, rq.User, rq.Path, o.err)
